@@ -18,10 +18,11 @@ from .common import vsc
 
 
 class EN(enum.IntEnum):
-    """three enumerators: a negative one and a non-contiguous set"""
+    """three enumerators: a negative one and a non-contiguous set, declared out of ascending order
+    (whatever is derived from the declaration - value domains, index draws - must not assume it sorted)"""
+    C = 5
     A = -2
     B = 1
-    C = 5
 
 
 ENUMS = {"EN": EN}
